@@ -236,3 +236,78 @@ pub fn assemble_kkt(
     let (K, map) = assemble_kkt_matrix(P, A, &cc, shape);
     kkt_view_of(&K, &map, P.n, A.m)
 }
+
+// ---------------------------------------------------------------------------
+// chordal decomposition (sdp feature)
+// ---------------------------------------------------------------------------
+
+/// The clique tree produced for one PSD sparsity pattern, as plain vectors.
+/// `parent[c]` is -1 for the root and -2 for cliques that were merged away.
+#[cfg(feature = "sdp")]
+#[derive(Clone, Debug, Default)]
+pub struct CliqueTreeView {
+    pub n: usize,
+    pub snode: Vec<Vec<usize>>,
+    pub sep: Vec<Vec<usize>>,
+    pub parent: Vec<i64>,
+    pub post: Vec<usize>,
+    pub nblk: Vec<usize>,
+    pub n_cliques: usize,
+    pub ordering: Vec<usize>,
+}
+
+/// Run the chordal analysis on an aggregate sparsity mask over the upper triangle
+/// (column-major, diagonal included) of a PSD cone of dimension `dim`.
+#[cfg(feature = "sdp")]
+pub fn analyse_pattern(nz_mask: &[bool], dim: usize, merge_method: &str) -> CliqueTreeView {
+    use crate::solver::chordal::*;
+    let mut mask = nz_mask.to_vec();
+    for i in 0..dim {
+        mask[crate::algebra::triangular_index(i)] = true;
+    }
+    let (L, ordering) = verif_find_graph(&mask);
+    let sp = SparsityPattern::new(L, ordering, 0, merge_method);
+    let t = &sp.sntree;
+    CliqueTreeView {
+        n: dim,
+        snode: t.snode.iter().map(|s| s.iter().copied().collect()).collect(),
+        sep: t.separators.iter().map(|s| s.iter().copied().collect()).collect(),
+        parent: t
+            .snode_parent
+            .iter()
+            .map(|&p| {
+                if p == NO_PARENT {
+                    -1
+                } else if p == INACTIVE_NODE {
+                    -2
+                } else {
+                    p as i64
+                }
+            })
+            .collect(),
+        post: t.snode_post.clone(),
+        nblk: t.nblk.clone().unwrap_or_default(),
+        n_cliques: t.n_cliques,
+        ordering: sp.ordering.clone(),
+    }
+}
+
+/// The union-find structure used by the clique-graph merge, with its arrays readable.
+#[cfg(feature = "sdp")]
+pub struct VerifDsu(crate::solver::chordal::DisjointSetUnion);
+
+#[cfg(feature = "sdp")]
+impl VerifDsu {
+    pub fn new(n: usize) -> Self {
+        VerifDsu(crate::solver::chordal::DisjointSetUnion::new(n))
+    }
+    pub fn union(&mut self, x: usize, y: usize) {
+        self.0.union(x, y)
+    }
+    pub fn in_same_set(&mut self, x: usize, y: usize) -> bool {
+        self.0.in_same_set(x, y)
+    }
+    pub fn state(&self) -> (Vec<usize>, Vec<usize>) {
+        self.0.verif_state()
+    }
+}
